@@ -83,6 +83,7 @@ fn create_slot(p: &[u8]) -> Option<usize> {
             let mut k = 0;
             while k < p.len() { s.name[i][k] = p[k]; k += 1; }
             s.len[i] = 0;
+            s.mutations += 1;
             return Some(i);
         }
         i += 1;
@@ -139,6 +140,7 @@ pub fn file_len(slot: usize) -> usize { fs().len[slot] }
 pub fn file_byte(slot: usize, i: usize) -> u8 { fs().data[slot][i] }
 pub fn file_count() -> usize { let s = fs(); let mut n = 0; let mut i = 0; while i < NF { if s.used[i] { n += 1; } i += 1; } n }
 pub fn limit_hit() -> bool { fs().limit_hit }
+pub fn mutation_count() -> usize { fs().mutations }
 pub fn dir_created(name: &str) -> bool {
     let s = fs();
     let p = name.as_bytes();
@@ -286,6 +288,7 @@ pub fn create_dir_all<P: AsRef<Path>>(p: P) -> io::Result<()> {
     while i < b.len() { s.dir[d][i] = b[i]; i += 1; }
     s.dir_len[d] = b.len();
     s.ndirs += 1;
+    s.mutations += 1;
     Ok(())
 }
 pub fn remove_file<P: AsRef<Path>>(p: P) -> io::Result<()> {
